@@ -239,6 +239,34 @@ def _extra(acc):
 
 
 # ---------------------------------------------------------------------------
+# the spelling of the call: the released parameter names used as keywords, in every order, and every positional prefix followed
+# by keywords.  A keyword the function does not know (TypeError) is a refusal, not a wrong key.
+
+ASYM_NAMES = ("idA", "idB", "X_msg", "Y_msg", "K_bytes", "pw")
+SYM_NAMES = ("idSymmetric", "msg1", "msg2", "K_bytes", "pw")
+
+
+def _keywords(acc):
+    sp = T.lib().sp
+    for fn, f, names, ref, tuples in (("asym", sp.finalize_SPAKE2, ASYM_NAMES, ref_asym, [(b"idA", b"idB", b"X-msg", b"Y-msg", b"K-bytes", b"pw"), (b"a", b"", b"m", b"m", b"", b"a")]),
+                                      ("sym", sp.finalize_SPAKE2_symmetric, SYM_NAMES, ref_sym, [(b"idS", b"m2", b"m1", b"K-bytes", b"pw"), (b"", b"a", b"b", b"b", b"a")])):
+        for t in tuples:
+            exp = ref(*t)
+            for npos in range(len(names) + 1):
+                rest = list(zip(names[npos:], t[npos:]))
+                for perm in itertools.permutations(rest):
+                    got = T.observe(lambda: f(*t[:npos], **dict(perm)))
+                    acc.n(states=1, transitions=1)
+                    acc.seen(("keywords", fn, npos, got[0]))
+                    if got == ("exc", "TypeError"):
+                        continue
+                    if got != ("ok", exp):
+                        acc.violation("C17/%s-keyword-spelling" % ("asymmetric" if fn == "asym" else "symmetric"),
+                                      {"what": "the key depends on how the call is spelled: %d positional arguments, then keywords in the order %s" % (npos, [k for k, _ in perm]),
+                                       "replay": {"fn": fn + "-kw", "args": list(t), "npos": npos, "order": [k for k, _ in perm]}, "expected": exp, "observed": got})
+
+
+# ---------------------------------------------------------------------------
 # the two functions called at the same time from several threads: every schedule within the preemption bound
 
 THREAD_CALLS = {
@@ -307,6 +335,7 @@ def run(tier, seed):
     core.pmerge(_sym_task, ALPHA, acc)
     core.pmerge(_dbg_task, [("asym", (a, b)) for a in ALPHA[:3] for b in ALPHA[:3]] + [("sym", a) for a in ALPHA[:3]], acc)
     _extra(acc)
+    _keywords(acc)
     _labels(acc)
     _poison(acc)
     _soak_and_blocks(acc, tier)
@@ -327,5 +356,9 @@ def replay(rec):
         return sched.Run(_thread_bodies(r["name"]), r["choices"], T.PKG, opc).run()
     if r["fn"] in ("asym-size", "sym-size", "asym-history"):
         return "re-run the check (needs the history / the large argument)"
+    if r["fn"].endswith("-kw"):
+        f, names = (sp.finalize_SPAKE2, ASYM_NAMES) if r["fn"] == "asym-kw" else (sp.finalize_SPAKE2_symmetric, SYM_NAMES)
+        vals = dict(zip(names, r["args"]))
+        return T.observe(lambda: f(*r["args"][:r["npos"]], **{k: vals[k] for k in r["order"]}))
     f = sp.finalize_SPAKE2 if r["fn"] == "asym" else sp.finalize_SPAKE2_symmetric
     return T.observe(f, *r["args"])
